@@ -348,6 +348,11 @@ fn rnd_name(rng: &mut Rng) -> String {
     let pool: Vec<char> = "abcXYZ019_-+.".chars().collect();
     let top = if rng.chance(1, 8) { 40 } else { 6 };
     let n = 1 + rng.below(top);
+    if rng.chance(1, 6) {
+        // non-ASCII names: every byte of the UTF-8 form is hex-encoded on its own
+        let wide: Vec<char> = "aZ9é§ÿ名€\u{80}\u{7ff}\u{800}\u{ffff}\u{1f600}\u{10ffff}~\u{7f}".chars().collect();
+        return (0..n).map(|_| *rng.pick(&wide)).collect();
+    }
     if rng.chance(1, 2) {
         (0..n).map(|_| *rng.pick(&pool)).collect()
     } else {
@@ -451,6 +456,7 @@ fn corner_cmds() -> Vec<TerminalCommand> {
         Termcap(vec![]),
         Termcap(vec!["TN".into(), "Co".into(), "RGB".into()]),
         Termcap(vec![" ~".into()]),
+        Termcap(vec!["é".into(), "名\u{1f600}".into(), "\u{7f}\u{80}ÿ".into()]),
         Title(String::new()),
         Title("x;y".into()),
         FaceModify(surf_n_term::FaceModify::default()),
